@@ -33,7 +33,7 @@ type nodeState struct {
 // Saveable reports whether the state consists of table contents only: nothing queued, nothing
 // parked (parked Interests hold callbacks, which cannot be copied), no harness anomaly.
 func (s *Sim) Saveable() bool {
-	if vsched.Pending() > 0 || len(s.Problems) > 0 {
+	if vsched.Pending() > 0 || len(s.Problems) > 0 || len(s.Held) > 0 {
 		return false
 	}
 	for _, n := range s.Nodes {
@@ -75,6 +75,7 @@ func (s *Sim) Restore(st *SimState) {
 	vsched.Reset()
 	s.Live, s.Alt = copyBoolMap(st.live), copyBoolMap(st.alt)
 	s.Problems, s.AdvSeen = nil, nil
+	s.Held, s.HeldDesc, s.holdSite, s.holdCut = nil, "", "", false
 	for i, n := range s.Nodes {
 		ns := st.nodes[i]
 		n.Up = ns.up
@@ -100,7 +101,7 @@ func (s *Sim) Restore(st *SimState) {
 // times. It is used to cross-check restored states against plain re-execution.
 func (s *Sim) FullDump() string {
 	var b strings.Builder
-	fmt.Fprintf(&b, "clock+%v %s alt=%v tasks=%d\n", vtime.Now().Sub(vtime.Epoch), s.Mode(), sortedPairs(s.Alt), vsched.Pending())
+	fmt.Fprintf(&b, "clock+%v %s alt=%v tasks=%d held=%d\n", vtime.Now().Sub(vtime.Epoch), s.Mode(), sortedPairs(s.Alt), vsched.Pending(), len(s.Held))
 	for i, n := range s.Nodes {
 		fmt.Fprintf(&b, "[r%d up=%v nonce=%d seq=%d]\n", i, n.Up, n.Eng.nonce, n.DV.VerifAdvertSeq())
 		for _, v := range n.DV.VerifNeighbors().VerifDump() {
